@@ -118,6 +118,8 @@ fn cb_run() -> unsafe extern "C" fn(*mut c_void, ...) {
 unsafe extern "C" fn cb_destroy(d: *mut c_void) {
     CB_DESTROYED.with(|v| v.borrow_mut().push(d as usize as u32));
 }
+/// payload value of the plain (no drop glue) arm of a mixed result
+const PLAIN_ARM: u32 = 0x5A5A_0001;
 
 #[repr(C)]
 struct OwnedMirror<T> {
@@ -135,10 +137,23 @@ pub enum Cell<P: Payload> {
     U(DiplomatOwnedUTF8StrSlice, &'static str),
     BoxStr(Box<str>, &'static str),
     Cb(DiplomatCallback<()>, u32, bool),
+    /// Ok type without drop glue, Err type = payload
+    RPlainOk(DiplomatResult<u32, P>),
+    /// Ok type = payload, Err type without drop glue
+    RPlainErr(DiplomatResult<P, u32>),
+    /// unit Ok type, Err type = payload (the common `Result<(), Box<Error>>` shape)
+    RUnitOk(DiplomatResult<(), P>),
+    StdRPlainOk(Result<u32, P>),
+    StdRPlainErr(Result<P, u32>),
+    StdRUnitOk(Result<(), P>),
 }
 
 #[derive(Clone, Copy, Debug, PartialEq, Eq, Hash)]
 pub enum Op {
+    /// mixed results: (kind 0: <u32, P>, 1: <P, u32>, 2: <(), P>), arm
+    MakeMix(u8, bool),
+    /// stateless callback: data == NULL, destructor present or not
+    MakeCbNull(bool),
     MakeOk,
     MakeErr,
     MakeSome,
@@ -171,6 +186,8 @@ pub enum Abs {
     U(usize, bool),
     BoxStr(usize),
     Cb(bool),
+    Mix(u8, bool),
+    StdMix(u8, bool),
 }
 
 fn abs_of<P: Payload>(c: &Cell<P>) -> Abs {
@@ -190,6 +207,12 @@ fn abs_of<P: Payload>(c: &Cell<P>) -> Abs {
         }
         Cell::BoxStr(b, _) => Abs::BoxStr(b.len()),
         Cell::Cb(_, _, d) => Abs::Cb(*d),
+        Cell::RPlainOk(r) => Abs::Mix(0, r.is_ok),
+        Cell::RPlainErr(r) => Abs::Mix(1, r.is_ok),
+        Cell::RUnitOk(r) => Abs::Mix(2, r.is_ok),
+        Cell::StdRPlainOk(r) => Abs::StdMix(0, r.is_ok()),
+        Cell::StdRPlainErr(r) => Abs::StdMix(1, r.is_ok()),
+        Cell::StdRUnitOk(r) => Abs::StdMix(2, r.is_ok()),
     }
 }
 
@@ -228,6 +251,7 @@ pub fn execute<P: Payload>(hist: &[Op], max_cells: usize) -> Outcome {
         };
         match *op {
             Op::MakeOk | Op::MakeErr | Op::MakeSome | Op::MakeNone | Op::MakeSlice(_) | Op::MakeNullSlice | Op::MakeStr(_) | Op::MakeNullStr | Op::MakeCb(_)
+            | Op::MakeMix(..) | Op::MakeCbNull(_)
                 if cells.len() >= max_cells =>
             {
                 continue
@@ -285,6 +309,40 @@ pub fn execute<P: Payload>(hist: &[Op], max_cells: usize) -> Outcome {
                 owned.push(vec![]);
                 cells.push(Cell::Cb(cb, next_cb, with_dtor));
             }
+            Op::MakeMix(kind, ok) => {
+                // the arm whose type has drop glue owns a payload; the other arm owns nothing
+                let (cell, ids) = match (kind, ok) {
+                    (0, true) => (Cell::RPlainOk(Ok(PLAIN_ARM).into()), vec![]),
+                    (0, false) => {
+                        let p = P::new();
+                        let ids = track(&p, &mut all_ids);
+                        (Cell::RPlainOk(Err(p).into()), ids)
+                    }
+                    (1, true) => {
+                        let p = P::new();
+                        let ids = track(&p, &mut all_ids);
+                        (Cell::RPlainErr(Ok(p).into()), ids)
+                    }
+                    (1, false) => (Cell::RPlainErr(Err(PLAIN_ARM).into()), vec![]),
+                    (_, true) => (Cell::RUnitOk(Ok(()).into()), vec![]),
+                    (_, false) => {
+                        let p = P::new();
+                        let ids = track(&p, &mut all_ids);
+                        (Cell::RUnitOk(Err(p).into()), ids)
+                    }
+                };
+                owned.push(ids);
+                cells.push(cell);
+            }
+            Op::MakeCbNull(with_dtor) => {
+                let cb = DiplomatCallback::<()> {
+                    data: std::ptr::null_mut(),
+                    run_callback: cb_run(),
+                    destructor: if with_dtor { Some(cb_destroy) } else { None },
+                };
+                owned.push(vec![]);
+                cells.push(Cell::Cb(cb, 0, with_dtor));
+            }
             Op::IntoStd(i) | Op::IntoConv(i) | Op::FromStd(i) | Op::Observe(i) | Op::Mutate(i) | Op::Clone(i) | Op::Drop(i) if (i as usize) >= cells.len() => continue,
             Op::IntoStd(i) => {
                 let i = i as usize;
@@ -295,6 +353,9 @@ pub fn execute<P: Payload>(hist: &[Op], max_cells: usize) -> Outcome {
                     Cell::O(o) => Cell::StdO(o.into_option()),
                     Cell::S(s) => Cell::BoxS(s.into()),
                     Cell::U(u, s) => Cell::BoxStr(u.into(), s),
+                    Cell::RPlainOk(r) => Cell::StdRPlainOk(r.into()),
+                    Cell::RPlainErr(r) => Cell::StdRPlainErr(r.into()),
+                    Cell::RUnitOk(r) => Cell::StdRUnitOk(r.into()),
                     other => other,
                 };
                 cells.insert(i, n);
@@ -320,6 +381,9 @@ pub fn execute<P: Payload>(hist: &[Op], max_cells: usize) -> Outcome {
                     Cell::StdO(o) => Cell::O(o.into()),
                     Cell::BoxS(b) => Cell::S(b.into()),
                     Cell::BoxStr(b, s) => Cell::U(b.into(), s),
+                    Cell::StdRPlainOk(r) => Cell::RPlainOk(r.into()),
+                    Cell::StdRPlainErr(r) => Cell::RPlainErr(r.into()),
+                    Cell::StdRUnitOk(r) => Cell::RUnitOk(r.into()),
                     other => other,
                 };
                 cells.insert(i, n);
@@ -359,6 +423,36 @@ pub fn execute<P: Payload>(hist: &[Op], max_cells: usize) -> Outcome {
                         }
                         vec![]
                     }
+                    Cell::RPlainOk(r) => match r.as_ref() {
+                        Ok(v) => {
+                            if *v != PLAIN_ARM {
+                                bad(format!("plain Ok arm reads {:#x}", v));
+                            }
+                            vec![]
+                        }
+                        Err(p) => p.ids(),
+                    },
+                    Cell::RPlainErr(r) => match r.as_ref() {
+                        Ok(p) => p.ids(),
+                        Err(v) => {
+                            if *v != PLAIN_ARM {
+                                bad(format!("plain Err arm reads {:#x}", v));
+                            }
+                            vec![]
+                        }
+                    },
+                    Cell::RUnitOk(r) => match r.as_ref() {
+                        Ok(()) => vec![],
+                        Err(p) => p.ids(),
+                    },
+                    Cell::StdRPlainOk(Ok(v)) | Cell::StdRPlainErr(Err(v)) => {
+                        if *v != PLAIN_ARM {
+                            bad(format!("plain arm reads {:#x} after conversion", v));
+                        }
+                        vec![]
+                    }
+                    Cell::StdRPlainOk(Err(p)) | Cell::StdRPlainErr(Ok(p)) | Cell::StdRUnitOk(Err(p)) => p.ids(),
+                    Cell::StdRUnitOk(Ok(())) => vec![],
                 };
                 if seen != owned[i] {
                     bad(format!("cell {i} shows ids {:?}, reference model says {:?}", seen, owned[i]));
@@ -390,6 +484,9 @@ pub fn execute<P: Payload>(hist: &[Op], max_cells: usize) -> Outcome {
                 let n = match &cells[i] {
                     Cell::R(r) => Some(Cell::R(r.clone())),
                     Cell::O(o) => Some(Cell::O(o.clone())),
+                    Cell::RPlainOk(r) => Some(Cell::RPlainOk(r.clone())),
+                    Cell::RPlainErr(r) => Some(Cell::RPlainErr(r.clone())),
+                    Cell::RUnitOk(r) => Some(Cell::RUnitOk(r.clone())),
                     _ => None,
                 };
                 if let Some(n) = n {
@@ -401,10 +498,25 @@ pub fn execute<P: Payload>(hist: &[Op], max_cells: usize) -> Outcome {
                             Ok(p) => track(p, &mut all_ids),
                             Err(()) => vec![],
                         },
+                        Cell::RPlainOk(r) => match r.as_ref() {
+                            Ok(_) => vec![],
+                            Err(p) => track(p, &mut all_ids),
+                        },
+                        Cell::RPlainErr(r) => match r.as_ref() {
+                            Ok(p) => track(p, &mut all_ids),
+                            Err(_) => vec![],
+                        },
+                        Cell::RUnitOk(r) => match r.as_ref() {
+                            Ok(()) => vec![],
+                            Err(p) => track(p, &mut all_ids),
+                        },
                         _ => vec![],
                     };
                     if abs_of(&n) != abs_of(&cells[i]) {
                         bad("clone changed the arm".into());
+                    }
+                    if ids.len() != owned[i].len() {
+                        bad("clone owns a different number of payloads".into());
                     }
                     if P::TRACKED && ids.iter().any(|x| owned[i].contains(x)) {
                         bad("clone shares payload identity with the original".into());
@@ -523,6 +635,10 @@ impl<P: Payload> Model for DropModel<P> {
         if s.abs.len() < self.max_cells {
             out.extend([Op::MakeOk, Op::MakeErr, Op::MakeSome, Op::MakeNone, Op::MakeSlice(0), Op::MakeSlice(1), Op::MakeSlice(3), Op::MakeNullSlice]);
             out.extend([Op::MakeStr(0), Op::MakeStr(1), Op::MakeStr(2), Op::MakeNullStr, Op::MakeCb(true), Op::MakeCb(false)]);
+            out.extend([Op::MakeCbNull(true), Op::MakeCbNull(false)]);
+            for kind in 0..3u8 {
+                out.extend([Op::MakeMix(kind, true), Op::MakeMix(kind, false)]);
+            }
         }
         for (i, a) in s.abs.iter().enumerate() {
             let i = i as u8;
@@ -533,6 +649,8 @@ impl<P: Payload> Model for DropModel<P> {
                 Abs::S(..) => out.extend([Op::IntoStd(i), Op::Observe(i), Op::Mutate(i), Op::Drop(i)]),
                 Abs::U(..) => out.extend([Op::IntoStd(i), Op::Observe(i), Op::Drop(i)]),
                 Abs::Cb(_) => out.extend([Op::Observe(i), Op::Drop(i)]),
+                Abs::Mix(..) => out.extend([Op::IntoStd(i), Op::Observe(i), Op::Clone(i), Op::Drop(i)]),
+                Abs::StdMix(..) => out.extend([Op::FromStd(i), Op::Observe(i), Op::Drop(i)]),
             }
         }
         // Clone is only enabled below the cell bound
